@@ -265,8 +265,8 @@ def run(ctx):
     t0 = time.time()
     ctx.coverage["trusted_base"] = list(V.GLOBAL_TRUSTED_BASE) + [
         "modelled rather than verified: the arena allocator under the nodes and string pooling (strings are values); "
-        "Attr nodes (attributes are name/value pairs of their element), DocumentType/Entity/Notation nodes, namespaces, "
-        "user data, ranges/iterators notification (C14), importNode/adoptNode/renameNode are not modelled"]
+        "Attr nodes only detached (attributes of an element are name/value pairs), DocumentType/Entity/Notation nodes, "
+        "user data, ranges/iterators notification (C14), importNode/adoptNode are not modelled"]
     ctx.assumptions = ["node identity = creation order (nodes are arena allocated and not freed before the document)",
                        "names and data in the generated sequences are 7-bit; XML name validity is modelled on that range",
                        "exceptions are modelled as an error value; the DOMException code is compared"]
@@ -479,14 +479,16 @@ def run(ctx):
                                      "correspondence sweeps", "failed": failed, "output": out[-3000:]}, no_input=True)
     elif proof_broken:
         ctx.note("proof obligation failed; a concrete failing input was found by the correspondence")
-    ctx.coverage["rule"] = ("operation sequences over pools of live nodes of 1-3 documents: exhaustive sequences over a 5-node "
-                            "tree (quick: length<=2 over 88 operations and length<=3 over 30; thorough: 3 and 4) with a dump after "
-                            "every operation, random sequences (quick 260x200 ops + 40x40; thorough 5000x1000 + 2000x40) with operands "
-                            "drawn uniformly from ALL live nodes (cross-document, fragments, self/ancestor insertions, out-of-range "
-                            "offsets, invalid names); every line compared with the extracted model token by token (exception codes "
-                            "and full structural dumps), every agreeing line replayed against the reference DOM in lock step; "
-                            "a sequence counts as non-trivial when it contains a raised DOMException and a successful structural "
-                            "operation; distinct by request text")
+    ctx.coverage["rule"] = ("operation sequences over pools of live nodes of 1-3 documents: exhaustive sequences over a 5-node tree "
+                            "(quick: length<=2 over 88 operations, <=3 over 30; thorough: 3 and 4) with a dump after every operation; "
+                            "DocumentFragments with children legal/illegal for the target at every position (length<=3, thorough 4) into "
+                            "Document/Attr/Element/Text by appendChild/insertBefore/replaceChild; character-data offsets and counts in "
+                            "{0,1,len-off-1,len-off,len-off+1,len,len+100,4095,4096,5000,2^32-1,2^32,2^63,2^64-off-1,2^64-off,2^64-1}; renameNode "
+                            "over node position x namespace x qualified-name grids, twice in a row; random sequences (quick 260x200 + 40x40 ops; "
+                            "thorough 5000x1000 + 2000x40) with operands drawn uniformly from ALL live nodes; every line compared with the "
+                            "extracted model token by token (exception codes and full structural dumps), every agreeing line replayed against "
+                            "the reference DOM in lock step; non-trivial = contains a raised DOMException and a successful structural operation; "
+                            "distinct by request text")
     ctx.coverage["exhaustive"] = False
     ctx.note("correspondence: %d sequences, %d operations (%d raising), %d divergences, model mode %s, %.1fs" % (
         len(lines), opcount, excs, len(divergences), mode, time.time() - t0))
